@@ -75,6 +75,8 @@ package protowire
 //@   ensures ok: vlen(b, 0) > 0 ==> n == vlen(b, 0) && v == vval(b, 0)
 //@   ensures bad: vlen(b, 0) == 0 ==> v == 0 && (n == -1 || n == -3)
 //@   ensures overflow: n == -3 <==> voverflow(b, 0)
+//@   ensures bound: n <= len(b)
+//@   ensures nonneg: n >= 0 ==> n > 0 && n == vlen(b, 0) && v == vval(b, 0)
 
 //@ lemma varint_roundtrip(b []byte, o int, v uint64)
 //@   props C20
